@@ -18,16 +18,24 @@
 (* primary state defined in DesignSpace.  Abstraction: an invalidated cache is    *)
 (* emptied (the code keeps the stale arrays behind the flag; unobservable if the  *)
 (* flag is honoured - which is exactly what MemberCacheCoherence is about).       *)
+(* The current-value caches are NOT emptied by an edit that leaves some variable  *)
+(* without value (the code clears them only when every variable has a value):     *)
+(* they stay, hidden behind hasCur, with their contents - which later edits make  *)
+(* out of date - and every step that makes the value complete again must drop     *)
+(* them (CurCacheCoherence).  The contents are kept in the model, as in the code, *)
+(* so that "hidden and out of date" and "hidden but still right" are different    *)
+(* states and the transition tour forms the histories that tell them apart.       *)
 (*                                                                                *)
 (* AsCoded selects, for the demonstration that the invariants are not vacuous,    *)
 (* the rules as the code has them today: TLC must refute the matching invariant.  *)
 EXTENDS DesignSpace
 
-CONSTANTS AsCoded,   \* subset of {"D1","D3","D15","D16"}; {} = the repaired rules
+CONSTANTS AsCoded,   \* subset of {"D1","D3","D15","D16","S1"}; {} = the rules of the code (after repair of D1..D16)
           Vias,      \* subset of {"add","extend","from"}: how a variable is added
           Forms,     \* subset of {"array","dict"}: argument form of set_current_value
           QKinds,    \* subset of {"normalize","unnormalize","round","project"}: which call fills the normalisation data
-          FilterModes \* subset of {"inplace","copy"}: filter(keep) on the object itself or on the copy it returns
+          FilterModes, \* subset of {"inplace","copy"}: filter(keep) on the object itself or on the copy it returns
+          Enabled    \* the actions of this module that may be taken (focused configurations switch some off)
 
 VARIABLES n2i, dimC, policy, normValid, lbC, ubC, maskC, intC, hasCur, curArrC, normCurC
 implvars == <<vars, intNorm, n2i, dimC, policy, normValid, lbC, ubC, maskC, intC, hasCur, curArrC, normCurC>>
@@ -43,9 +51,12 @@ Invalidate ==
   /\ (IF "D3" \in AsCoded THEN UNCHANGED <<lbC, ubC>> ELSE lbC' = <<>> /\ ubC' = <<>>)
 \* __clear_dependent_data
 ClearDep == curArrC' = <<>> /\ normCurC' = <<>>
-\* __update_current_metadata (the code clears only when every variable has a value; otherwise the
-\* arrays are unreachable until the next call that clears them: same observable behaviour)
-UpdateMeta == hasCur' = AllHave(vars') /\ ClearDep
+\* __update_current_metadata: the status is recomputed; the dependent data are cleared ONLY when every variable
+\* has a value.  Otherwise they are kept, unreachable (get_current_value() raises) and possibly out of date.
+UpdateMeta ==
+  /\ hasCur' = AllHave(vars')
+  /\ (IF hasCur' THEN ClearDep ELSE UNCHANGED <<curArrC, normCurC>>)
+On(a) == a \in Enabled
 \* __update_normalization_vars: bounds from the variables, mask from the POLICY dictionary in variable order
 Refresh ==
   /\ lbC' = FlatLB /\ ubC' = FlatUB /\ intC' = IsIntVec
@@ -61,6 +72,7 @@ IInit ==
 
 \* ------------------------------------------------------------------ mutators
 AddVariable(t, wv, via) ==
+  /\ On("AddVariable")
   /\ Add(t, wv)
   /\ LET v == vars'[Len(vars')] IN
        /\ n2i' = [m \in DOMAIN n2i \cup {v.name} |-> IF m = v.name THEN <<dimC, dimC + v.size>> ELSE n2i[m]]
@@ -69,17 +81,24 @@ AddVariable(t, wv, via) ==
   /\ Invalidate /\ UpdateMeta
 
 RemoveVariable(n) ==
+  /\ On("RemoveVariable")
   /\ Remove(n)
   /\ LET k == Pos(n) sz == vars[k].size IN
        /\ n2i' = [m \in DOMAIN n2i \ {n} |-> IF Pos(m) > k THEN Shift(n2i[m], sz) ELSE n2i[m]]
        /\ dimC' = dimC - sz
   /\ policy' = [m \in DOMAIN policy \ {n} |-> policy[m]]
-  /\ Invalidate /\ UpdateMeta
+  /\ Invalidate
+  \* ("S1": a rule the code does NOT have - drop the caches only when the removed variable had a value - used to
+  \*  show that CurCacheCoherence refutes a removal that makes the value complete again without clearing)
+  /\ (IF "S1" \in AsCoded /\ ~vars[Pos(n)].hasv
+        THEN hasCur' = AllHave(vars') /\ UNCHANGED <<curArrC, normCurC>>
+        ELSE UpdateMeta)
 
 \* filter(keep) = remove_variable for every other variable
 \* (mode "copy": filter(keep, copy=True) returns a filtered deep copy - caches included - and leaves the original alone;
 \*  the behaviour continues with the copy)
 FilterVariables(keep, mode) ==
+  /\ On("FilterVariables")
   /\ Filter(keep)
   /\ LET rg == RangesOf(vars') IN
        /\ n2i' = [m \in keep |-> rg[CHOOSE i \in 1..Len(vars') : vars'[i].name = m]]
@@ -91,17 +110,19 @@ FilterVariables(keep, mode) ==
 \* As coded (D1): dict[new] = dict.pop(old) moves the variable to the END of every dictionary, while the
 \* index range stays and nothing is invalidated.
 RenameVariable(n) ==
+  /\ On("RenameVariable")
   /\ IF "D1" \in AsCoded
        THEN /\ Has(n) /\ HasFree /\ UNCHANGED intNorm
             /\ vars' = Append(Sel(vars, {i \in 1..Len(vars) : vars[i].name # n}), [vars[Pos(n)] EXCEPT !.name = FreeName])
             /\ UNCHANGED <<hasCur, curArrC, normCurC>>
-       ELSE Rename(n) /\ UpdateMeta
+       ELSE Rename(n) /\ hasCur' = hasCur /\ ClearDep
   /\ n2i' = [m \in (DOMAIN n2i \ {n}) \cup {FreeName} |-> IF m = FreeName THEN n2i[n] ELSE n2i[m]]
   /\ policy' = [m \in (DOMAIN policy \ {n}) \cup {FreeName} |-> IF m = FreeName THEN policy[n] ELSE policy[m]]
   /\ UNCHANGED <<dimC, normValid, lbC, ubC, maskC, intC>>
 
 \* filter_dimensions.  Repaired: the policy of the variable is re-derived (as coded, D16: left at the old size).
 FilterDimensions(n, S) ==
+  /\ On("FilterDimensions")
   /\ FilterDims(n, S)
   /\ LET k == Pos(n) nrem == vars[k].size - Cardinality(S) IN
        /\ n2i' = [m \in DOMAIN n2i |-> IF m = n THEN <<n2i[m][1], n2i[m][2] - nrem>>
@@ -117,21 +138,25 @@ BoundEdit(n) ==
   /\ Invalidate
   /\ (IF "D15" \in AsCoded THEN UNCHANGED <<curArrC, normCurC>> ELSE ClearDep)
   /\ UNCHANGED <<n2i, dimC, hasCur>>
-SetLowerBound(n, b) == SetLB(n, b) /\ BoundEdit(n)
-SetUpperBound(n, b) == SetUB(n, b) /\ BoundEdit(n)
+SetLowerBound(n, b) == On("SetLowerBound") /\ SetLB(n, b) /\ BoundEdit(n)
+SetUpperBound(n, b) == On("SetUpperBound") /\ SetUB(n, b) /\ BoundEdit(n)
 
 SetCurrentValue(c, form) ==
+  /\ On("SetCurrentValue")
   /\ SetCurAll(c) /\ UpdateMeta
   /\ UNCHANGED <<n2i, dimC, policy, normValid, lbC, ubC, maskC, intC>>
 SetCurrentVariable(n, c) ==
+  /\ On("SetCurrentVariable")
   /\ SetCurVar(n, c) /\ UpdateMeta
   /\ UNCHANGED <<n2i, dimC, policy, normValid, lbC, ubC, maskC, intC>>
 InitializeMissing ==
+  /\ On("InitializeMissing")
   /\ InitMissing /\ UpdateMeta
   /\ UNCHANGED <<n2i, dimC, policy, normValid, lbC, ubC, maskC, intC>>
 
 \* the setter of enable_integer_variables_normalization: policies of the integer variables re-derived
 ToggleIntegerNormalization ==
+  /\ On("ToggleIntegerNormalization")
   /\ ToggleIntNorm
   /\ policy' = [m \in DOMAIN policy |-> IF vars[Pos(m)].type = "integer" THEN PolicyOf(vars[Pos(m)], intNorm') ELSE policy[m]]
   /\ Invalidate
@@ -141,11 +166,13 @@ ToggleIntegerNormalization ==
 \* ------------------------------------------------------------------ queries (fill caches, abstract state unchanged)
 \* normalize_vect / unnormalize_vect / round_vect / project_into_bounds (and the grad/transform wrappers)
 QNormalize(kind) ==
+  /\ On("QNormalize")
   /\ vars # <<>> /\ EnsureNorm
   /\ UNCHANGED <<vars, intNorm, n2i, dimC, policy, hasCur, curArrC, normCurC>>
 \* check_membership(ndarray).  Repaired: reads the bounds through the validity flag.
 \* As coded (D3): fills the cached arrays only when they are None and never looks at the flag.
 QMembership ==
+  /\ On("QMembership")
   /\ vars # <<>>
   /\ (IF "D3" \in AsCoded
         THEN /\ (IF lbC = <<>> THEN lbC' = FlatLB /\ ubC' = FlatUB ELSE UNCHANGED <<lbC, ubC>>)
@@ -154,6 +181,7 @@ QMembership ==
   /\ UNCHANGED <<vars, intNorm, n2i, dimC, policy, hasCur, curArrC, normCurC>>
 \* get_current_value()
 QCurrent ==
+  /\ On("QCurrent")
   /\ hasCur
   /\ curArrC' = (IF curArrC = <<>> THEN CurFlat ELSE curArrC)
   /\ UNCHANGED <<vars, intNorm, n2i, dimC, policy, normValid, lbC, ubC, maskC, intC, hasCur, normCurC>>
@@ -162,6 +190,7 @@ CachedN(k, x) == IF ~maskC'[k] THEN x
                  ELSE IF ubC'[k] = lbC'[k] THEN x - lbC'[k]
                  ELSE (U * (x - lbC'[k])) \div (ubC'[k] - lbC'[k])
 QNormCurrent ==
+  /\ On("QNormCurrent")
   /\ hasCur
   /\ curArrC' = (IF curArrC = <<>> THEN CurFlat ELSE curArrC)
   /\ (IF normCurC = <<>>
@@ -202,10 +231,10 @@ MemberCacheCoherence ==
   (IF "D3" \in AsCoded THEN lbC # <<>> ELSE normValid) => (lbC = FlatLB /\ ubC = FlatUB)
 CurCacheCoherence ==
   /\ hasCur = HasCur
-  /\ (curArrC # <<>> => (HasCur /\ curArrC = CurFlat))
-  /\ (normCurC # <<>> => (HasCur /\ normCurC = NormCur))
+  /\ (hasCur => /\ (curArrC # <<>> => curArrC = CurFlat)
+                /\ (normCurC # <<>> => normCurC = NormCur))
 \* invalid caches are empty (the normal form this model uses)
-NormalForm == (~normValid => (maskC = <<>> /\ intC = <<>>)) /\ (~hasCur => (curArrC = <<>> /\ normCurC = <<>>))
+NormalForm == ~normValid => (maskC = <<>> /\ intC = <<>>)
 \* (guarded versions for the depth-bounded exhaustive run, see DesignSpace!TypeOKB)
 IndexCoherenceB == InBound => IndexCoherence
 PolicyCoherenceB == InBound => PolicyCoherence
